@@ -430,6 +430,14 @@ def replay(o, tree):
     elif o.get("unit", "").startswith("try_accumulator_from_symbol["):
         from contracts import c01
         return c01.replay_accumulator_name(o, tree)
+    elif o.get("unit", "").startswith("bk_encoding.") or o.get("func", "").startswith("bk_encoding."):
+        # strings, character constants and tape names with characters outside the table at the end, the start and in the middle
+        bad = []
+        for src in ('.ascii "caf\u00e9"\n', "mov #'\u00e9, r0\n", '.ascii "x\u20ac\u20ac"\n', '.ascii "\u20acx"\n', '.ascii "ab\u00e9cd"\n', '.ascii "\u00e9"\n', 'make_wav "a.wav", "n\u00e9"\n', ".word '\u4e2d\n"):
+            out = _native_outcome(tree, src)
+            if out not in ("ok", "fail"):
+                bad.append((src, out))
+        return dict(jobs=[{"kind": "asm", "sources": [b[0]]} for b in bad[:4]], expected="ok or fail (a result or a reported error)", observed=bad, reproduced=bool(bad))
     if src is None:
         return None
     out = _native_outcome(tree, src)
